@@ -9,7 +9,10 @@
                                               fin = 1: signal::from_iter over the finite frame list
                                               (one frame of look-ahead; exhausted once all are pulled)
    fmt 0 f32, 1 f64 (frame samples = bit patterns), 2 i16, 3 u8 (samples = integer values;
-   Float companion f32).  init = the window handed to Rms::new as bit patterns of F::Float
+   Float companion f32; hand-written `s as f32 / 2^k`), 10 + c for the integer format with
+   ConvSpec.fmt_code c (i8 i16 I24 i32 I48 i64 u8 u16 U24 u32 U48 u64; samples = integer values):
+   to_float_frame through the conversions GENERATED from conv.rs (gen/ConvFloatGen.v) and the Float
+   companion of the GENERATED impl_sample! table (gen/SampleTable.v: f64 for the 48/64-bit formats).  init = the window handed to Rms::new as bit patterns of F::Float
    (Fixed::from_raw_parts(first, init)); nostd = 1 selects the bit-trick square root.
    observations (RCase): per op  [2; out bits..] (reset: [7])  then  [3; square_sum bits..]
      (clone().into_parts()); at the end [5; window in iteration order, flattened]; [4; window_frames];
@@ -19,6 +22,9 @@
      fin = 1: [3; is_exhausted] before the first call and after every call, and the count at the
      end is the number of items taken from the iterator = min (length frames) (k + 1).
 
+   The to_float_frame conversions of the integer formats are GENERATED from the source, so the model
+   follows a wrong conversion; the verdict therefore also checks every converted input sample against
+   the independent specification amplitude / 2^(bits-1) (ConvSpec.amp) within one rounding (u |x|).
    [check_code] = 1*(model and crate disagree) + 2*(property verdict fails on the model run)
                 + 4*(K4 class: some square x*x is not finite). *)
 Require Import Floats.SpecFloat.
@@ -26,6 +32,8 @@ Require Import ZArith List Bool.
 From Flocq Require Import Core BinarySingleNaN.
 From Dasp Require Import Base.Res Base.ListX Base.Float Base.FloatRun Ring.Bounded Ring.Fixed.
 From Dasp Require Import Dsp.Rms Dsp.Sqrt Dsp.RmsInst Dsp.RmsErr.
+From Dasp Require Sample.Rint Sample.ConvSpec.
+From DaspGen Require ConvFloatGen SampleTable.
 Import ListNotations.
 Open Scope Z_scope.
 
@@ -58,6 +66,7 @@ Variable finite : T K -> bool.
 Variable isnan : T K -> bool.
 Variable toD : T K -> dy.
 Variables prec emax : Z.
+Variable exact_in : Z -> option dy.   (* the exact amplitude of an integer sample; None for float frames *)
 
 Definition conv_op (o : zop) : op K :=
   match o with
@@ -155,6 +164,17 @@ Definition verdict (chans : Z) (n : nat) (l : list (tr K)) : bool :=
                     | None => false
                     end) (seq 0 (Z.to_nat chans)).
 
+Definition conv_ok (ops : list zop) : bool :=
+  forallb (fun o => match o with
+                    | ZNext fr | ZNextSq fr =>
+                      forallb (fun z => match exact_in z with
+                                        | None => true
+                                        | Some x => finite (inconv z) &&
+                                                    dleb (dabs (dsub (toD (inconv z)) x)) (dmul (u_of prec) (dabs x))
+                                        end) fr
+                    | _ => true
+                    end) ops.
+
 Definition k4_class (ops : list zop) : bool :=
   existsb (fun o => existsb (fun x => negb (finite (mul K x x))) (op_in o)) ops.
 
@@ -167,9 +187,9 @@ Definition code_rcase (chans first : Z) (init : list (list Z)) (ops : list zop) 
     let r := trace st ops in
     let '(l, stf, e) := r in
     (if zll_eqb (obs_of_trace r) obs then 0 else 1)
-    + (if all_zero_init init then
-         (if verdict chans (length init) l && match e with None => true | _ => false end then 0 else 2)
-       else 0)
+    + (if (if all_zero_init init then
+              verdict chans (length init) l && match e with None => true | _ => false end
+            else true) && conv_ok ops then 0 else 2)
     + (if k4_class ops then 4 else 0)
   | Panic k => if zll_eqb [[8; Z.of_nat (panic_code k)]] obs then 0 else 1
   | UB => 1
@@ -177,32 +197,61 @@ Definition code_rcase (chans first : Z) (init : list (list Z)) (ops : list zop) 
 
 End RunK.
 
-Definition eq_input (fmt : Z) : Z := if fmt =? 3 then 128 else 0.
+Definition eq_input (fmt : Z) : Z :=
+  match (if 10 <=? fmt then ConvSpec.fmt_of_code (fmt - 10) else None) with
+  | Some fi => ConvSpec.equilibrium fi
+  | None => if fmt =? 3 then 128 else 0
+  end.
 
 Definition NumF32sel (nostd : Z) := NumF32 (if nostd =? 1 then sqrt_trick32 else sqrt_std32).
 Definition NumF64sel (nostd : Z) := NumF64 (if nostd =? 1 then sqrt_trick64 else sqrt_std64).
+(* generated conversions (debug profile; they cannot panic on in-range samples, a panic would show
+   as NaN here and as an `8` observation on the crate side) *)
+Definition gen_to_f32 (fi : ConvSpec.fmt) (z : Z) : f32 :=
+  match ConvFloatGen.to_sample_f32_of_int Rint.Checked fi z with Ok x => x | _ => B754_nan end.
+Definition gen_to_f64 (fi : ConvSpec.fmt) (z : Z) : f64 :=
+  match ConvFloatGen.to_sample_f64_of_int Rint.Checked fi z with Ok x => x | _ => B754_nan end.
+Definition gen_fmt (fmt : Z) : option ConvSpec.fmt := if 10 <=? fmt then ConvSpec.fmt_of_code (fmt - 10) else None.
+(* does the frame format use the f64 companion? *)
+Definition is64 (fmt : Z) : bool :=
+  match gen_fmt fmt with Some fi => SampleTable.src_float64 fi | None => fmt =? 1 end.
 Definition inconv32 (fmt : Z) : Z -> f32 :=
-  match fmt with 2 => i16_to_f32 | 3 => u8_to_f32 | _ => F32.of_bits end.
+  match gen_fmt fmt with
+  | Some fi => gen_to_f32 fi
+  | None => match fmt with 2 => i16_to_f32 | 3 => u8_to_f32 | _ => F32.of_bits end
+  end.
+Definition inconv64 (fmt : Z) : Z -> f64 :=
+  match gen_fmt fmt with Some fi => gen_to_f64 fi | None => F64.of_bits end.
+
+Definition exact_amp (fmt : Z) (z : Z) : option dy :=
+  match gen_fmt fmt with
+  | Some fi => Some (Float radix2 (ConvSpec.amp fi z) (1 - ConvSpec.bits fi))
+  | None => match fmt with
+            | 2 => Some (Float radix2 z (-15))
+            | 3 => Some (Float radix2 (z - 128) (-7))
+            | _ => None
+            end
+  end.
 
 Definition run_case (c : case) : list (list Z) :=
   match c with
   | RCase fmt nostd chans first init ops =>
-    if fmt =? 1 then run_rcase (NumF64sel nostd) F64.bits F64.of_bits F64.of_bits chans first init ops
+    if is64 fmt then run_rcase (NumF64sel nostd) F64.bits F64.of_bits (inconv64 fmt) chans first init ops
     else run_rcase (NumF32sel nostd) F32.bits F32.of_bits (inconv32 fmt) chans first init ops
   | ACase fmt nostd chans n frames sq k fin =>
-    if fmt =? 1 then run_acase (NumF64sel nostd) F64.bits F64.of_bits chans n (eq_input fmt) frames sq k fin
+    if is64 fmt then run_acase (NumF64sel nostd) F64.bits (inconv64 fmt) chans n (eq_input fmt) frames sq k fin
     else run_acase (NumF32sel nostd) F32.bits (inconv32 fmt) chans n (eq_input fmt) frames sq k fin
   end.
 
 Definition check_code (c : case * list (list Z)) : Z :=
   match fst c with
   | RCase fmt nostd chans first init ops =>
-    if fmt =? 1 then
-      code_rcase (NumF64sel nostd) F64.bits F64.of_bits F64.of_bits F64.is_finite F64.is_nan B2D 53 1024
-                 chans first init ops (snd c)
+    if is64 fmt then
+      code_rcase (NumF64sel nostd) F64.bits F64.of_bits (inconv64 fmt) F64.is_finite F64.is_nan B2D 53 1024
+                 (exact_amp fmt) chans first init ops (snd c)
     else
       code_rcase (NumF32sel nostd) F32.bits F32.of_bits (inconv32 fmt) F32.is_finite F32.is_nan B2D 24 128
-                 chans first init ops (snd c)
+                 (exact_amp fmt) chans first init ops (snd c)
   | ACase _ _ _ _ _ _ _ _ => if zll_eqb (run_case (fst c)) (snd c) then 0 else 1
   end.
 
